@@ -335,3 +335,27 @@ mod test {
         doubling_test_helper(P);
     }
 }
+
+#[cfg(curve25519_dalek_verif)]
+impl ExtendedPoint {
+    /// Verification hook: the underlying vector.
+    pub(crate) fn verif_raw(&self) -> F51x4Unreduced {
+        self.0
+    }
+    /// Verification hook: wrap a vector without any validation.
+    pub(crate) fn verif_from_raw(v: F51x4Unreduced) -> ExtendedPoint {
+        ExtendedPoint(v)
+    }
+}
+
+#[cfg(curve25519_dalek_verif)]
+impl CachedPoint {
+    /// Verification hook: the underlying vector.
+    pub(crate) fn verif_raw(&self) -> F51x4Reduced {
+        self.0
+    }
+    /// Verification hook: wrap a vector without any validation.
+    pub(crate) fn verif_from_raw(v: F51x4Reduced) -> CachedPoint {
+        CachedPoint(v)
+    }
+}
